@@ -220,7 +220,9 @@ fn text_nesting(text: &str, open: &[char], close: &[char]) -> usize {
 pub fn prepare(source: &str) -> Option<Prepared> {
     let ast = vm::parse(source).ok()?;
     let program = vm::compile(&ast).ok()?;
-    let reference = vm::serialize_to_vec(&program).ok()?;
+    // `run` never writes an image: a program it can compile but that cannot be written is still a program run accepts, and
+    // the compile stage's refusal of it is reported by the pipeline (O4). The reference is then empty and never compared.
+    let reference = vm::serialize_to_vec(&program).unwrap_or_default();
     let depth = ast_depth(&ast);
     let json_nesting = catch(|| Fmt::Json.serializer().serialize(&ast).ok()).ok().flatten().map(|t| text_nesting(&t, &['{', '['], &['}', ']'])).unwrap_or(0);
     let lisp_nesting = catch(|| Fmt::Lisp.serializer().serialize(&ast).ok()).ok().flatten().map(|t| text_nesting(&t, &['('], &[')'])).unwrap_or(0);
@@ -839,9 +841,13 @@ fn exercise(name: &str, spec: &ProgSpec, rng: &mut Rng, n_tuples: usize, n_hard:
     let mut directs: Vec<(Profile, ChildResult)> = Vec::new();
     let mut tuples: Vec<Tuple> = Vec::new();
     // every format at least once per program, then random ones; the wrapper now and then
-    for f in Fmt::ALL { tuples.push(Tuple::random(rng, f)); }
+    if name.starts_with("boundary:") {
+        tuples.push(Tuple::plain(*rng.pick(&Fmt::ALL), Profile::Release));
+    } else {
+        for f in Fmt::ALL { tuples.push(Tuple::random(rng, f)); }
+    }
     while tuples.len() < n_tuples { let f = *rng.pick(&Fmt::ALL); tuples.push(Tuple::random(rng, f)); }
-    if rng.below(4) == 0 {
+    if !name.starts_with("boundary:") && rng.below(4) == 0 {
         let mut t = Tuple::plain(Fmt::Json, if rng.coin() { Profile::Debug } else { Profile::Release });
         t.wrapper = true;
         t.parse_stdin = rng.coin(); // program on the wrapper's stdin instead of a file argument
@@ -938,12 +944,18 @@ pub fn run(seed: u64, tier: &str, ev: &mut Evidence) -> Vec<Violation> {
     for (name, src) in work::scale_templates() {
         specs.push((format!("scale:{}", name), ProgSpec::Source(src)));
     }
+    // the constant-count boundary of the image header, as source programs (release build only: the debug build needs more CPU
+    // time for them than the watchdog grants)
+    for total in [65_535usize, 65_536, 65_537] {
+        specs.push((format!("boundary:pool_of_{}_constants", total), ProgSpec::Source(work::pool_boundary_source(total))));
+    }
     // one pinned instance of the recorded finding (AST nesting beyond the deserializers' limit), so that its
     // KNOWN-FINDING line is printed exactly while it exists, whatever the seed
     specs.push(("pinned:blocks-nested-200".into(), ProgSpec::Source(nesting_template(0, 200))));
     let outs: Vec<Out1> = par_map(specs.len(), |i| {
         let mut rng = Rng::for_case(seed, "C06", ENGINE, i as u64);
         super::util::breadcrumb("C06", json!({"kind": "program", "program": specs[i].1.to_json()}));
+        if specs[i].0.starts_with("boundary:") { return exercise(&specs[i].0, &specs[i].1, &mut rng, 1, 0); }
         let nt = if specs[i].0.starts_with("scale:") { 3 } else { n_tuples };
         exercise(&specs[i].0, &specs[i].1, &mut rng, nt, if specs[i].0.starts_with("scale:") { 1 } else { n_hard })
     });
